@@ -983,6 +983,11 @@ class Oracle(object):
     elif op == "block":
       if a.get("v") == "false" and fr.depth == 0:
         y = False
+      elif a.get("v") == "true" and fr.depth == 0:
+        # (any value the scheduler has no meaning for deschedules the task;
+        # True is one -- and happens to be an int to isinstance)
+        y = True
+        self.sim.probes["blocked_by_yielding_true"] += 1
       else:
         y = R.Sleep(None)
       L.tokens = 0
@@ -2021,10 +2026,25 @@ from checks import c06t as _T      # noqa: E402
 _gen_inline, _run_inline, _hint_inline = gen_plan, run_plan, minimise_hint
 
 
+def _some_blocks_yield_true(node, r):
+  if isinstance(node, list):
+    for i in range(len(node) - 1):
+      if node[i] == "block" and isinstance(node[i + 1], dict) \
+          and node[i + 1].get("v") == "false" and r.chance(0.35):
+        node[i + 1]["v"] = "true"
+    for x in node:
+      _some_blocks_yield_true(x, r)
+  elif isinstance(node, dict):
+    for x in node.values():
+      _some_blocks_yield_true(x, r)
+
+
 def gen_plan(seed, tier):          # noqa: F811
   if seed % 6 == 0:
     return _T.gen_plan(seed, tier)
-  return _gen_inline(seed, tier)
+  plan = _gen_inline(seed, tier)
+  _some_blocks_yield_true(plan.get("steps"), Rng(mix(seed, "btrue")))
+  return plan
 
 
 def run_plan(plan):                # noqa: F811
